@@ -12,7 +12,7 @@ CONSTANT NTraces
 Traces == JsonDeserialize(IOEnv.TRACE_FILE)
 
 L == INSTANCE RetryLoop WITH Classes <- {}, Outs <- {}, Durs <- {}, Rets <- {}, Advs <- {},
-        Decs <- {}, BFaults <- {}, Ras <- {}, Modes <- {}, NRuns <- 1
+        Decs <- {}, BFaults <- {}, Ras <- {}, Modes <- {}, NRuns <- 1, RunGaps <- {}
 
 VARIABLES tid, l
 vars == <<tid, l>>
